@@ -44,20 +44,21 @@ def fill_model(sP, sQ, ro, s):
     P, Q, E, p, f, Wt = A("P"), A("Q"), A("E"), A("p"), A("f"), A("Wt")
     sp = R.const(sP) * P     # signed size
     sq = R.const(sQ) * Q     # signed order qty
-    wallet = Wt - Q * p * f  # fee on every fill: |qty*price| * fee
+    wallet = Wt - Q * p * f  # fee on every fill: |filled qty * price| * fee
     if sP == 0:
         return "open", wallet, sq, p, ["open_trade"]
     pv, qv = s["P"], s["Q"]
     if sP == sQ:
         if ro:
-            return "increase-blocked", wallet, sp, E, []
+            return "increase-blocked", Wt, sp, E, []          # nothing is filled: no fee
         return "increase", wallet, sp + sq, (Q * p + P * E) / (Q + P), []
     # opposite signs
     if qv == pv:
         return "close", wallet + sp * (p - E), num(0), None, ["close_trade"]
     if qv > pv:
         if ro:
-            return "oversize-reduce-only", wallet + sp * (p - E), num(0), None, ["close_trade"]
+            # only the position size is filled: fee on |P * p|
+            return "oversize-reduce-only", Wt - P * p * f + sp * (p - E), num(0), None, ["close_trade"]
         return "flip", wallet + sp * (p - E), sp + sq, p, ["close_trade", "open_trade"]
     return "reduce", wallet - sq * (p - E), sp + sq, E, []
 
@@ -88,7 +89,7 @@ def check_fills(repo, rep):
     rid = "C03-R1"
     rep.rule(rid, "Position._on_executed_order (backtest): for every sign pattern of (position, order), magnitude relation and "
                   "reduce_only flag the resulting wallet, signed size and average entry equal the reference margin account "
-                  "(fee |q*p|*f on every fill; PnL realised on reduce/close/flip; reduce-only never increases or flips); trade "
+                  "(fee |filled q*p|*f on every fill - a reduce-only order is filled only up to the position it reduces; PnL realised on reduce/close/flip; reduce-only never increases or flips); trade "
                   "open/close bookkeeping and exactly one strategy notification follow the effect")
     pts = fill_grid()
     for sP in (-1, 0, 1):
